@@ -201,7 +201,11 @@ func (e *Env) expr(x ast.Expr) (Val, types.Type, error) {
 		switch u := t.Underlying().(type) {
 		case *types.Slice:
 			l := f.sliceElemLoc(v, idx, u.Elem())
-			return f.load(e.st, l), u.Elem(), nil
+			hst := e.st
+			if v.HeapSt != nil {
+				hst = v.HeapSt
+			}
+			return f.load(hst, l), u.Elem(), nil
 		case *types.Basic:
 			if v.K == KStr {
 				return Val{K: KBV, W: 8, T: "(sat " + v.T + " " + idx + ")", Typ: types.Typ[types.Uint8]}, types.Typ[types.Uint8], nil
@@ -711,7 +715,11 @@ func (e *Env) seqArgs(v Val, t types.Type) (string, string, string, error) {
 	}
 	k, w := kindOfType(sl.Elem())
 	key := "E." + sortKey(k, w)
-	E := e.f.heapGet(e.st, key, elemArraySort(k, w))
+	hst := e.st
+	if v.HeapSt != nil {
+		hst = v.HeapSt
+	}
+	E := e.f.heapGet(hst, key, elemArraySort(k, w))
 	return "(select " + E + " (s.arr " + v.T + "))", "(s.off " + v.T + ")", "(s.len " + v.T + ")", nil
 }
 
@@ -821,7 +829,11 @@ func (e *Env) call(n *ast.CallExpr) (Val, types.Type, error) {
 					}
 				}
 			}
-			return sub.expr(n.Args[1])
+			rv, rt, err := sub.expr(n.Args[1])
+			if err == nil && rv.K == KSlice && li.headState != nil {
+				rv.HeapSt = li.headState
+			}
+			return rv, rt, err
 		}
 		return e.expr(n.Args[1])
 	case "old":
